@@ -204,9 +204,22 @@ Section View.
   Lemma field_obj_struct f : field_obj f = PStruct (field_pyclass f) (field_attrs f).
   Proof. destruct f; reflexivity. Qed.
 
+  (* the regex MapMapper writes as the key of "patternProperties":
+     f"{keys.pattern or ''}{suffix}", suffix = f"{{{keys.minLength or ''}, {keys.maxLength or ''}}}" if a length is set *)
+  Definition len_text (o : option Z) : pystr :=
+    match o with Some z => if (z =? 0)%Z then [] else Z_dec z | None => [] end.
+  Definition key_text (c : strc) : pystr :=
+    (match pattern c with Some p => pat_text p | None => [] end ++
+     (if nonzero (maxLength c) || nonzero (minLength c)
+      then s2p "{" ++ len_text (minLength c) ++ s2p ", " ++ len_text (maxLength c) ++ s2p "}"
+      else []))%list.
+
   (* the key pattern, if any, is not the empty text (see the note at [generated_MapMapper_empty_pattern]) *)
-  Definition key_text_ok (c : strc) : bool :=
+  Definition key_pat_ok (c : strc) : bool :=
     match pattern c with Some p => negb (Nat.eqb (length (pat_text p)) 0) | None => true end.
+  (* ... and the regex oracle knows the regex built for the key under the id the model gives it *)
+  Definition key_text_ok (c : strc) : bool :=
+    key_pat_ok c && (negb (key_constrained c) || pystr_eqb (pat_text (key_pid c)) (key_text c)).
 
   Definition map_obj (items : pyval) (sz : sizec) : pyval := PStruct (s2p "Map") ((s2p "items", items) :: size_attrs sz).
 
@@ -220,16 +233,18 @@ Section View.
 
   (* String keys; V is the object of the value field, on which convert_to_schema returns a non-empty dict or raises *)
   Lemma generated_MapMapper_to_schema_kv : forall rec mc c V sz sm,
-      key_text_ok c = true ->
+      key_pat_ok c = true ->
       (forall J, rec V sm = Ok J -> exists d D, J = PDict (d :: D)) ->
       MapMapper__to_schema s2s defs_store rec (mapper_obj mc (map_obj (PList [field_obj (FString c); V]) sz)) sm
       = (J <- rec V sm ;;
          Ok (PDict ([kw_json pat_text (KType TObject)]
-                    ++ [(PStr (s2p (if key_constrained c then "patternProperties" else "additionalProperties")), J)]
+                    ++ [if key_constrained c then (PStr (s2p "patternProperties"), PDict [(PStr (key_text c), J)])
+                        else (PStr (s2p "additionalProperties"), J)]
                     ++ map (kw_json pat_text) (size_kws sz)))).
   Proof.
     intros rec mc [kmn kmx kp] V [mn mx] sm Hk HJ.
-    unfold key_text_ok in Hk. cbn [pattern] in Hk.
+    unfold key_pat_ok in Hk. cbn [pattern] in Hk.
+    unfold key_text, len_text. cbn [pattern minLength maxLength].
     assert (HJ' : match rec V sm with Ok J => exists d D, J = PDict (d :: D) | Raise _ => True end).
     { destruct (rec V sm) as [J|e]; [apply HJ; reflexivity|exact I]. }
     clear HJ. revert HJ'.
@@ -735,8 +750,12 @@ Section View.
         { apply IHf2; [exact Hm | exact Hk2 | exact Hr | cbn [cfuel] in Hn; lia]. }
         rewrite method_Map.
         change (field_obj (FMapKV (FString c) f2 sz)) with (map_obj (PList [field_obj (FString c); field_obj f2]) sz).
-        rewrite generated_MapMapper_to_schema_kv; [| exact Hk1 |].
-        + rewrite E. cbn [bind]. destruct (key_constrained c) eqn:Ekc; rhs_open; rewrite Ekc; reflexivity.
+        unfold key_text_ok in Hk1. apply andb_true_iff in Hk1 as [Hkp Hkt].
+        rewrite generated_MapMapper_to_schema_kv; [| exact Hkp |].
+        + rewrite E. cbn [bind]. destruct (key_constrained c) eqn:Ekc; rhs_open; rewrite Ekc.
+          * cbn [negb orb] in Hkt. apply pystr_eqb_spec in Hkt.
+            cbn [map app kw_json fst snd]. rewrite Hkt. reflexivity.
+          * reflexivity.
         + intros J HJ. rewrite E in HJ. inversion HJ; subst J. apply (jschema_nonempty f2 Hm).
       - (* FAllOf *)
         cbn [mappable] in Hm. need_fuel fuel Hn.
@@ -908,6 +927,7 @@ Section View.
           cbn [lits_plain andb] in Hl.
           assert (E : raises (conv fuel (field_obj f2) sm)).
           { apply IHf2; [exact Hm | exact Hl | exact Hk2 | exact Hr | cbn [cfuel] in Hn; lia]. }
+          unfold key_text_ok in Hk1. apply andb_true_iff in Hk1 as [Hk1 _].
           rewrite generated_MapMapper_to_schema_kv; [apply raises_bind; exact E | exact Hk1 |].
           intros J HJ. destruct E as (e & E & _). rewrite E in HJ. discriminate HJ.
       - (* FAllOf *)
@@ -948,7 +968,11 @@ End View.
 
 (* ------------------------------------------------------------------ the side conditions are satisfiable *)
 
-Definition src_ex_pat_text (p : N) : pystr := if N.eqb p 0 then s2p "^[a-z]+$" else s2p "a.c".
+(* pattern 0, and the regex MapMapper builds for a key field String(pattern=<0>, minLength=2) *)
+Definition src_ex_pat_text (p : N) : pystr :=
+  if N.eqb p 0 then s2p "^[a-z]+$"
+  else if N.eqb p (key_pid {| minLength := Some 2; maxLength := None; pattern := Some 0%N |}) then s2p "^[a-z]+${2, }"
+  else s2p "a.c".
 Definition src_ex_s2s (c sm : pyval) : res pyval := Ok (PTuple [PDict [(PStr (s2p "type"), PStr (s2p "object"))]; PDict []]).
 Definition src_ex_store (k v : pyval) : res unit := Ok tt.
 (* PrioV: an IntEnum whose Enum fields are declared with serialization_by_value=True *)
@@ -1007,7 +1031,7 @@ Example source_vs_hand_model_empty_key_pattern :
                (PStr (s2p "additionalProperties"), PDict [(PStr (s2p "type"), PStr (s2p "integer"))])]) /\
   sch_json empty_pat_text (fschema no_einfo map_empty_key_pattern)
   = PDict [(PStr (s2p "type"), PStr (s2p "object"));
-           (PStr (s2p "patternProperties"), PDict [(PStr (s2p "type"), PStr (s2p "integer"))])].
+           (PStr (s2p "patternProperties"), PDict [(PStr [], PDict [(PStr (s2p "type"), PStr (s2p "integer"))])])].
 Proof. repeat split; vm_compute; reflexivity. Qed.
 
 Print Assumptions generated_NumberMapper_to_schema.
